@@ -197,6 +197,7 @@ impl<'tcx> Cx<'tcx> {
                 // name the constants the promoted body mentions (e.g. `&TX_SEPARATOR`)
                 let mut names: Vec<String> = Vec::new();
                 let mut variants: Vec<String> = Vec::new();
+                let mut pvals: Vec<i128> = Vec::new();
                 if uv.def.is_local() {
                     let bodies = tcx.promoted_mir(uv.def);
                     if let Some(pb) = bodies.get(p) {
@@ -230,11 +231,34 @@ impl<'tcx> Cx<'tcx> {
                                     }
                                 }
                             }
+                            // `(A..=B)` is promoted as a call RangeInclusive::new(const A, const B): name and evaluate the arguments
+                            if let Some(term) = &bb.terminator {
+                                if let TerminatorKind::Call { args, .. } = &term.kind {
+                                    for a in args.iter() {
+                                        if let Operand::Constant(ic) = &a.node {
+                                            if let Const::Unevaluated(iuv, _) = &ic.const_ {
+                                                if iuv.promoted.is_none() {
+                                                    names.push(self.path(iuv.def));
+                                                }
+                                            }
+                                            let ptenv = TypingEnv::post_analysis(tcx, uv.def);
+                                            if matches!(ic.const_.ty().kind(), ty::Int(_) | ty::Uint(_)) {
+                                                if let Some(si) = ic.const_.try_eval_scalar_int(tcx, ptenv) {
+                                                    pvals.push(si.to_bits_unchecked() as i128);
+                                                }
+                                            }
+                                        }
+                                    }
+                                }
+                            }
                         }
                     }
                 }
                 if variants.len() == 1 {
                     o.push(("pvariant", s(variants[0].clone())));
+                }
+                if !pvals.is_empty() {
+                    o.push(("pvals", J::A(pvals.into_iter().map(J::I).collect())));
                 }
                 if names.len() == 1 {
                     o.push(("named", s(names[0].clone())));
